@@ -60,14 +60,26 @@ func (h *Host) GetProposal(_ context.Context, k uint64) (*gpbft.SupplementalData
 		}
 		h.m.inputs[k] = ch
 	}
+	handed := ch
+	if eff := h.m.effectiveInput[k]; eff != nil {
+		// the EC chain handed over is over-long; what the participant can propose is its first
+		// 128 tipsets, and that is its input as far as the oracles are concerned
+		if len(ch.TipSets) > len(eff.TipSets) {
+			handed = ch
+		} else if full := w.instance(k).Inputs[h.m.Idx]; full != nil {
+			handed = full
+		}
+		ch = eff
+		h.m.inputs[k] = eff
+	}
 	supp := info.Supp
-	w.r.Tracef("t=%d input p=%d k=%d chain=%s", w.now(), h.m.ID, k, chainStr(ch))
+	w.r.Tracef("t=%d input p=%d k=%d chain=%s (handed over: %d tipsets)", w.now(), h.m.ID, k, chainStr(ch), len(handed.TipSets))
 	if w.byz != nil {
 		w.byz.learnChain(k, ch)
 	}
 	h.m.disc.onStart(k, ch, info)
 	// hand out a private copy
-	cp := &gpbft.ECChain{TipSets: append([]*gpbft.TipSet(nil), ch.TipSets...)}
+	cp := &gpbft.ECChain{TipSets: append([]*gpbft.TipSet(nil), handed.TipSets...)}
 	return &supp, cp, nil
 }
 
